@@ -132,6 +132,10 @@ def cases(shard, tier):
         for k in KINDS:
             for order in ('AB', 'AAB', 'ABA', 'ABB'):
                 yield {'across_sets': k, 'order': order}
+            # ... followed by a call of the same kind and set that is refused because of its NAME (not a string): the
+            # objects added before must all stay defined and referable
+            yield {'across_sets': k, 'order': 'AB', 'then_rejected_name': True}
+            yield {'across_sets': k, 'order': 'A', 'then_rejected_name': True}
         return
     if shard.get('kind') == 'reidentify':
         # the identity (origin reference) of 1..2 objects is changed between two writes of the same file object:
@@ -172,6 +176,13 @@ def across_sets_spec(case):
             kw.pop('file_set_number', None)
         ops.append(S.op_add(k, f'X{j}', 'SAME', set_name=f'SET-{sname}', **kw))
         hs.append(f'X{j}')
+    if case.get('then_rejected_name'):
+        kw = dict(good)
+        if k == 'frame':
+            kw['channels'] = [{'$ref': 'C4'}]
+        if k == 'origin':
+            kw.pop('file_set_number', None)
+        ops.append(S.op_add(k, 'RJ', 5, expect='raise', set_name=f"SET-{case['order'][-1]}", **kw))
     if k != 'frame':
         ops.append(S.op_add('frame', 'F2', 'FRAME2', channels=[{'$ref': h} for h in free]))
     else:
